@@ -7,6 +7,7 @@ import impl
 
 PID = "C02"
 LEAN_MODULES = ["BtcHd.Props.C02", "BtcHd.Props.RealCurve"]
+LEAN_MODULES_THOROUGH = ['BtcHd.Props.TrBip32']
 TRUSTED_BASE = common.CORE_TRUSTED + [
     "curve group laws are explicit hypotheses (GroupLaws) of the general theorems; Props/RealCurve.lean PROVES them "
     "(and CurveLaws) for the concrete secp256k1 the driver runs (Prims/Bundle.lean: p, n prime by Pratt certificates, "
